@@ -50,6 +50,9 @@ type histCfg struct {
 	snapEvery   uint64
 	paceMs      int // mean pause between two operations of one client
 	checkQuorum bool
+	concurrent  bool          // IConcurrentStateMachine instead of IStateMachine
+	slowReplica uint64        // 0 = none; this replica dwells in about a third of its Updates
+	slowDwell   time.Duration
 }
 
 type cluster struct {
@@ -94,6 +97,14 @@ func (c *cluster) raftConfig(replica uint64, nonVoting bool) config.Config {
 	}
 }
 
+// startReplica starts the shard's replica on nh with the kind of state machine of this history.
+func (c *cluster) startReplica(nh *dragonboat.NodeHost, members map[uint64]dragonboat.Target, join bool, rc config.Config) error {
+	if c.cfg.concurrent {
+		return nh.StartConcurrentReplica(members, join, c.rec.concurrentFactory(), rc)
+	}
+	return nh.StartReplica(members, join, c.rec.factory(), rc)
+}
+
 func (c *cluster) get(i int) *dragonboat.NodeHost {
 	c.mu.RLock()
 	defer c.mu.RUnlock()
@@ -134,6 +145,9 @@ func startCluster(cfg histCfg) (*cluster, error) {
 	}
 	c := &cluster{cfg: cfg, net: newNetwork(subRand(cfg.seed, 99).U64()), rec: newRecorder(),
 		hosts: make([]*dragonboat.NodeHost, n), codes: dragonboat.VerifC01Codes(), notes: map[string]int{}}
+	if cfg.slowReplica != 0 {
+		c.rec.slow = map[uint64]time.Duration{cfg.slowReplica: cfg.slowDwell}
+	}
 	members := map[uint64]dragonboat.Target{}
 	for i := 0; i < n; i++ {
 		addr := fmt.Sprintf("%s-n%d:1", cfg.name, i+1)
@@ -159,7 +173,7 @@ func startCluster(cfg histCfg) (*cluster, error) {
 			return nil, fmt.Errorf("NewNodeHost %d: %w", i+1, err)
 		}
 		c.hosts[i] = nh
-		if err := nh.StartReplica(members, false, c.rec.factory(), c.raftConfig(uint64(i+1), false)); err != nil {
+		if err := c.startReplica(nh, members, false, c.raftConfig(uint64(i+1), false)); err != nil {
 			return nil, fmt.Errorf("StartReplica %d: %w", i+1, err)
 		}
 	}
@@ -193,7 +207,7 @@ func startCluster(cfg histCfg) (*cluster, error) {
 		if aerr != nil {
 			return nil, fmt.Errorf("add non-voting: %w", aerr)
 		}
-		if err := nh.StartReplica(nil, true, c.rec.factory(), c.raftConfig(4, true)); err != nil {
+		if err := c.startReplica(nh, nil, true, c.raftConfig(4, true)); err != nil {
 			return nil, fmt.Errorf("StartReplica 4: %w", err)
 		}
 	}
@@ -403,7 +417,7 @@ func (c *cluster) restartHost(i int, r *vh.Rand) {
 		c.note("restart_failed")
 		return
 	}
-	if err := nh2.StartReplica(nil, false, c.rec.factory(), c.raftConfig(uint64(i+1), false)); err != nil {
+	if err := c.startReplica(nh2, nil, false, c.raftConfig(uint64(i+1), false)); err != nil {
 		c.note("restart_start_failed:" + err.Error())
 		nh2.Close()
 		return
